@@ -271,9 +271,20 @@ func (c *updater) buildBackendAuthExternal(d *backData) {
 		config := d.mapper.GetConfig(path.Link)
 		isBackend := config.Get(ingtypes.BackAuthExternalPlacement).ToLower() == "backend"
 		url := config.Get(ingtypes.BackAuthURL)
-		if isBackend && url.Value != "" {
-			c.setAuthExternal(config, &path.AuthExternal, url)
+		if url.Value == "" {
+			continue
 		}
+		if !isBackend {
+			// the authentication was placed in the frontend if the host could read the same
+			// configuration, otherwise it is placed here instead of leaving the path unprotected
+			if host := c.haproxy.Hosts().FindHost(path.Link.Hostname()); host != nil {
+				if hostPath := host.FindPathWithLink(path.Link); hostPath != nil && hostPath.AuthExt != nil {
+					continue
+				}
+			}
+			c.logger.Warn("external authentication on %v could not be placed in the frontend, using backend instead", url.Source)
+		}
+		c.setAuthExternal(config, &path.AuthExternal, url)
 	}
 }
 
